@@ -101,18 +101,23 @@ func (vfs *BasePathFS) FromLinkError(err error) error {
 
 // ToBasePath transforms a BasePathFS path to an internal path.
 // When the base path is "/base/path", ToBasePath("/tmp") returns "/base/path/tmp".
+// A relative path is relative to the current directory of the BasePathFS,
+// and ".." elements can't go above its root.
 func (vfs *BasePathFS) ToBasePath(path string) string {
-	if path == "" || path == "/" {
+	if !vfs.IsAbs(path) {
+		curDir, _ := vfs.Getwd()
+		path = vfs.Join(curDir, path)
+	}
+
+	path = vfs.Clean(path)
+	vl := avfs.VolumeNameLen(vfs, path)
+	sep := string(vfs.PathSeparator())
+
+	if path[vl:] == sep {
 		return vfs.basePath
 	}
 
-	if vfs.IsAbs(path) {
-		vl := avfs.VolumeNameLen(vfs, path)
-
-		return vfs.basePath + path[vl:]
-	}
-
-	return path
+	return strings.TrimSuffix(vfs.basePath, sep) + path[vl:]
 }
 
 // Name returns the name of the fileSystem.
